@@ -425,6 +425,10 @@ def add(node: ir.Node, op, state: OptimizerState) -> ReturnValue:
         if shape_value is None or len(shape_value) != 1:
             return None
         dim: int | ir.SymbolicDim = shape_value[0]
+        if isinstance(dim, int) and dim < 0:
+            # A negative constant operand: the sum need not be non-negative, so it must
+            # not be recorded as a (symbolic) dimension, which users like Abs rely on.
+            return None
         return dim if isinstance(dim, int) else dim.value
 
     dim0 = get_dim_value(0)
